@@ -87,7 +87,7 @@ def install_probe():
     def _set_delegate(self, delegate):
         r = orig(self, delegate)
         s = core.current()
-        if s is not None and delegate is not None:
+        if s is not None and delegate is not None and getattr(s, "c06_probes", False):
             s.ev("tf-set-delegate")
         return r
     TF._set_delegate = _set_delegate
@@ -101,6 +101,8 @@ def install_probe():
 
     def cancel(self):
         s = core.current()
+        if s is not None and not getattr(s, "c06_probes", False):
+            s = None
         if s is not None:
             s.ev("rf-cancel", self._sim_serial)
         r = orig_cancel(self)
@@ -111,8 +113,8 @@ def install_probe():
     def submit_retry(self, retry_policy, fn, *args, **kwargs):
         f = orig_submit_retry(self, retry_policy, fn, *args, **kwargs)
         s = core.current()
-        if s is not None:
-            s.ev("rf-new", f._sim_serial, getattr(fn, "tag", None), id(self) and 0)
+        if s is not None and getattr(s, "c06_probes", False):
+            s.ev("rf-new", f._sim_serial, getattr(fn, "tag", None), 0)
         return f
     RF.cancel = cancel
     RE.submit_retry = submit_retry
@@ -122,6 +124,7 @@ def run(spec, env):
     if spec["mode"] == "comb":
         return run_comb(spec, env)
     install_probe()
+    env.sim.c06_probes = True     # the class-level probes log only in C06's own runs
     sr = StackRun(spec, env)
     env.objs["sr"] = sr
     sr.build()
